@@ -39,6 +39,7 @@ func init() {
 		orders.Compare3(p, r)
 		conserve.FilterRule(p, r)
 		conserve.QualifierRules(p, r)
+		conserve.SelectorRules(p, r)
 		r.NotDecided = append(r.NotDecided, "selector grammar and regexp semantics", "the tie-break and the recursive cases of LocationLess", "boolean-algebra laws of And/Or/Not", "the binary search of FeatureSlice.Insert")
 	})
 	register("C04", false, func(p *core.Prog, r *core.Report, tier string) {
